@@ -1,8 +1,9 @@
 (* Extraction for driver `ustep`: machine M2 of the whole allocator (UpperMachine.v, which embeds M1),
    the construction of its boot state (Upper.v `llfree_new`), the policies (Policies.v) and the
    specifications the oracles evaluate on the implementation's own dumps (Spec.v `lower_invb`,
-   UpperInvDef.v `upper_invb`).  ExtrOcamlBasic only; N, positive, nat stay Coq's inductives. *)
-From LLF Require Import Base Row Bitfield Lower Spec Sorted Upper UpperInvDef Policies LowerMachine UpperMachine.
+   UpperInvDef.v `upper_invb`, Crash.v / UpperCrash.v `touched_b`, `in_hand`).  ExtrOcamlBasic only; N, positive, nat stay Coq's inductives. *)
+From LLF Require Import Base Row Bitfield Lower Spec Sorted Upper UpperInvDef Policies LowerMachine UpperMachine
+  ConcInvDef Crash UpperConcInvDef UpperCrash.
 Require Import ExtrOcamlBasic.
 Extraction Language OCaml.
 Set Extraction KeepSingleton.
@@ -10,4 +11,7 @@ Extraction "model.ml"
   ustep uboot uheld_ok upanicked llfree_new alloc_all_held pol_select
   enc_tree dec_tree enc_slot dec_slot
   lower_invb upper_invb ustate_new tree_free class_slots
+  (* crash points (C05 on M2, UpperCrash.v): the M1 view of an M2 state, blocks in the hands of in-flight gets,
+     frames touched by in-flight lower calls; recovery and the ownership specification *)
+  m1_of in_hand touched_b covered_b lower_recover abs spec_put_enabled exact_free free_huge_count
   popcount.
